@@ -305,6 +305,10 @@ pub fn run_matrix(tier: &str, seed: u64, out: &mut Out) {
     ];
     let mut loop_templates = loop_templates;
     // a member of a conditional whose branch is the item of a list without data path (the item's path variable is null)
+    // the loop index is not assignable: no path for it, alone, in a chain, as the taken branch of a conditional, nested, and
+    // for lists of a script module (where event / change: bindings carry the script path)
+    loop_templates.push("<block wx:for=\"{{ g }}\"><v model:value=\"{{ index }}\" model:w=\"{{ d ? index : item.name }}\" bind:tap=\"{{ index }}\" change:p=\"{{ index }}\"/><block wx:for=\"{{ item.members }}\" wx:for-item=\"mm\" wx:for-index=\"mi\"><v model:value=\"{{ mi }}\" model:w=\"{{ index }}\" model:u=\"{{ a ? mi : mm.name }}\"/></block></block>");
+    loop_templates.push("<wxs module=\"inl\">exports.list = [{name: 'i0'}, {name: 'i1'}]</wxs><block wx:for=\"{{ inl.list }}\" wx:for-index=\"pi\"><v bind:tap=\"{{ pi }}\" change:p=\"{{ pi }}\" model:value=\"{{ pi }}\" catch:x=\"{{ d ? pi : item.name }}\"/></block>");
     loop_templates.push("<block wx:for=\"{{ a ? g : [{name: 'lit', members: []}] }}\"><v model:value=\"{{ (d ? item : k[0]).name }}\" bind:tap=\"{{ (d ? item : k[0]).name }}\" change:p=\"{{ (d ? item : k[0]).name }}\"/></block>");
     loop_templates.push("<block wx:for=\"{{ a ? g : [{name: 'lit', members: [{name: 'lm'}]}] }}\"><v model:value=\"{{ (d ? (a ? item : k[0]) : item).members[0].name }}\"/></block>");
     // script modules (inline and external, inline first) whose members are event handlers, change: listeners and loop lists:
